@@ -9,7 +9,7 @@ import os
 
 from .pyexpr import Expr, TranslationError, find_class, find_func, strip_doc, write_if_changed
 
-REPO = "/repo"
+REPO = os.environ.get("VERIF_REPO", "/repo")
 OUT = os.path.join(os.path.dirname(os.path.dirname(os.path.dirname(os.path.abspath(__file__)))), "coq", "theories", "Gen", "ETDRK.v")
 
 
